@@ -1277,6 +1277,8 @@ class Trust(Packet):
     @trustlevel.register(TrustLevel)
     def trustlevel_int(self, val):
         self._trustlevel = TrustLevel(val & 0x0F)
+        # the octets that were read no longer describe this packet
+        self._raw_body = None
 
     @sdproperty
     def trustflags(self):
@@ -1285,10 +1287,12 @@ class Trust(Packet):
     @trustflags.register(list)
     def trustflags_list(self, val):
         self._trustflags = val
+        self._raw_body = None
 
     @trustflags.register(int)
     def trustflags_int(self, val):
         self._trustflags = TrustFlags & val
+        self._raw_body = None
 
     def __init__(self):
         super(Trust, self).__init__()
@@ -1312,7 +1316,6 @@ class Trust(Packet):
         # header, and keep the level and flags only when they are the two-octet form written by this class
         body = packet[:self.header.length]
         del packet[:self.header.length]
-        self._raw_body = bytes(body)
 
         t = self.bytes_to_int(body[:2])
         try:
@@ -1322,6 +1325,8 @@ class Trust(Packet):
             self.trustlevel = TrustLevel.Unknown
 
         self.trustflags = t
+        # kept until the level or the flags are set to something else
+        self._raw_body = bytes(body)
 
 
 class UserID(Packet):
